@@ -9,6 +9,7 @@ never by re-parsing.
 
 import ipaddress
 
+from vcheck import argtypes
 from vcheck import core
 from vcheck.core import Task, Violation
 
@@ -17,6 +18,8 @@ LEVEL = 'exploration'
 BUDGET = {'quick': 40, 'thorough': 360}
 # deterministic sub-checks repeated in a `python -O` child (core.optimized_child)
 OPT_SUBS = ('eui64/errors', 'eui64/inverse-grid', 'hostport/grid', 'hostport/empty', 'urlsplit/examples')
+# sub-checks repeated with str / int arguments as subclass instances
+SUBCLASS_SUBS = ('eui64/errors', 'eui64/inverse-grid', 'hostport/grid', 'urlsplit/examples')
 # documented call interface the generated calls rely on (vcheck/callstyle.py)
 INTERFACE = [('oslo_utils.netutils', ['parse_host_port', 'escape_ipv6', 'get_ipv6_addr_by_EUI64', 'get_mac_addr_by_ipv6', 'urlsplit'])]
 RULE = ('eui64: 48-bit MACs (0, all ones, every single bit, every single '
@@ -96,7 +99,7 @@ def _show(x):
 
 def _call(fn, *a, **k):
     try:
-        return ('ok', fn(*a, **k))
+        return ('ok', fn(*argtypes.maybe_all(a), **k))
     except Exception as e:            # noqa - the class is what is judged
         return ('err', e)
 
